@@ -44,24 +44,24 @@ def errClass {α : Type} : Except Err α → Option Err
   | .error e => some e
   | .ok _ => none
 
-/-- **C04, flat tier, API level of the model.** For every list of (≤ 4000) positioned `A_INT32` VALUE parameters
-    and *every* dictionary of supplied values whatsoever, strict `Request.encode` either
+/-- **C04, flat tier, API level of the model.** For every list of (≤ 4000) positioned integer VALUE parameters
+    (`A_INT32`, `A_UINT32`) and *every* dictionary of supplied values whatsoever, strict `Request.encode` either
     * raises the library's `EncodeError` (some parameter is missing, `None`, not an integer atom, or not
-      representable) or a plain `OdxError` (unknown parameter name) — never a foreign exception —, or
-    * returns a PDU, and then every parameter was supplied with a representable integer, and — unless the
+      representable) or a plain `OdxError` (unknown parameter name; negative value for an unsigned object) —
+      never a foreign exception —, or
+    * returns a PDU, and then every parameter was supplied with a representable value, and — unless the
       encoder reported overlapping objects — strict `Request.decode` of that PDU returns exactly the
       supplied values, parameter by parameter. -/
 theorem C04_flat (os : List Obj) (hlen : os.length ≤ 4000) (hok : ∀ o ∈ os, o.ok)
     (values : List (String × PVal)) (trig : Option Bytes) :
-    encodeMessage none (os.map Obj.toParam) (.dict values) trig true = .error .encode ∨
-    encodeMessage none (os.map Obj.toParam) (.dict values) trig true = .error .odx ∨
-    ∃ (vs : List Int) (pdu : Bytes) (w : Nat), vs.length = os.length ∧
+    (∃ e, encodeMessage none (os.map Obj.toParam) (.dict values) trig true = .error e ∧ (e = .encode ∨ e = .odx)) ∨
+    ∃ (vs : List IVal) (pdu : Bytes) (w : Nat), vs.length = os.length ∧
       encodeMessage none (os.map Obj.toParam) (.dict values) trig true = .ok (pdu, w) ∧
-      (∀ ov ∈ os.zip vs, lookup ov.1.name values = some (.atom (.int ov.2)) ∧ Spec.representable ov.1.enc ov.1.bl ov.2) ∧
+      (∀ ov ∈ os.zip vs, lookup ov.1.name values = some (.atom ov.2) ∧ ov.1.inRange ov.2) ∧
       (w = 0 → ∃ cursor, decodeMessage none (os.map Obj.toParam) pdu true =
-        .ok (.dict ((os.zip vs).map fun ov => (ov.1.name, PVal.atom (.int ov.2))), cursor)) := by
+        .ok (.dict ((os.zip vs).map fun ov => (ov.1.name, PVal.atom ov.2)), cursor)) := by
   by_cases hunk : values.any (fun kv => !((os.map Obj.toParam).any fun p => p.name == kv.1)) = true
-  · exact Or.inr (Or.inl (encodeMessage_flat_unknown os values trig hunk))
+  · exact Or.inl ⟨.odx, encodeMessage_flat_unknown os values trig hunk, Or.inr rfl⟩
   have hknown : values.any (fun kv => !((os.map Obj.toParam).any fun p => p.name == kv.1)) = false := by
     simpa using hunk
   by_cases hbad : ∃ o ∈ os, o.pick values = none
@@ -72,12 +72,11 @@ theorem C04_flat (os : List Obj) (hlen : os.length ≤ 4000) (hok : ∀ o ∈ os
     cases hp : o.pick values with
     | none => exact absurd ⟨o, ho, hp⟩ hbad
     | some v => exact ⟨v, rfl⟩
-  let vs : List Int := os.map fun o => (o.pick values).getD 0
-  have hzip : os.zip vs = os.map fun o => (o, (o.pick values).getD 0) := zip_map_self os _
+  let vs : List IVal := os.map fun o => (o.pick values).getD (.int 0)
+  have hzip : os.zip vs = os.map fun o => (o, (o.pick values).getD (.int 0)) := zip_map_self os _
   have hmap1 : (os.zip vs).map (fun ov => ov.1.toParam) = os.map Obj.toParam := by
     rw [hzip]; simp [List.map_map, Function.comp_def]
-  have hall : ∀ ov ∈ os.zip vs, (ov.1.ok ∧ int32InRange ov.1.enc ov.1.bl ov.2) ∧
-      lookup ov.1.name values = some (.atom (.int ov.2)) := by
+  have hall : ∀ ov ∈ os.zip vs, (ov.1.ok ∧ ov.1.inRange ov.2) ∧ lookup ov.1.name values = some (.atom ov.2) := by
     intro ov hov
     rw [hzip] at hov
     obtain ⟨o, ho, rfl⟩ := List.mem_map.mp hov
@@ -91,7 +90,7 @@ theorem C04_flat (os : List Obj) (hlen : os.length ≤ 4000) (hok : ∀ o ∈ os
   obtain ⟨s0, _, _, _, _, _, hrun⟩ := encodeMessage_flat (os.zip vs) hlen' values trig
     (fun ov h => (hall ov h).1) (fun ov h => (hall ov h).2) hknown'
   rw [hmap1] at hrun
-  refine Or.inr (Or.inr ⟨vs, _, _, by simp [vs], hrun, fun ov h => ⟨(hall ov h).2, (hall ov h).1.2⟩, ?_⟩)
+  refine Or.inr ⟨vs, _, _, by simp [vs], hrun, fun ov h => ⟨(hall ov h).2, (hall ov h).1.2⟩, ?_⟩
   intro hw
   rw [hw] at hrun
   have hrt := flat_roundtrip (os.zip vs) hlen' values trig (fun ov h => (hall ov h).1) (fun ov h => (hall ov h).2) hknown'
@@ -99,16 +98,22 @@ theorem C04_flat (os : List Obj) (hlen : os.length ≤ 4000) (hok : ∀ o ∈ os
   rw [hmap1] at hrt
   exact hrt
 
-/-- non-vacuity: each of the three outcomes occurs -/
-example : errClass (encodeMessage none ([⟨"a", none, none, none, true, 8⟩].map Obj.toParam) (.dict [("a", .atom (.int 200))]) none true)
+/-- non-vacuity: each of the outcomes occurs -/
+example : errClass (encodeMessage none ([⟨"a", none, none, none, true, 8, .int32⟩].map Obj.toParam) (.dict [("a", .atom (.int 200))]) none true)
     = some .encode := by decide +kernel
-example : errClass (encodeMessage none ([⟨"a", none, none, none, true, 8⟩].map Obj.toParam) (.dict [("a", .atom (.str [65]))]) none true)
+example : errClass (encodeMessage none ([⟨"a", none, none, none, true, 8, .uint32⟩].map Obj.toParam) (.dict [("a", .atom (.int 256))]) none true)
     = some .encode := by decide +kernel
-example : errClass (encodeMessage none ([⟨"a", none, none, none, true, 8⟩].map Obj.toParam) (.dict []) none true)
-    = some .encode := by decide +kernel
-example : errClass (encodeMessage none ([⟨"a", none, none, none, true, 8⟩].map Obj.toParam) (.dict [("a", .atom (.int 1)), ("zz", .none)]) none true)
+example : errClass (encodeMessage none ([⟨"a", none, none, none, true, 8, .uint32⟩].map Obj.toParam) (.dict [("a", .atom (.int (-1)))]) none true)
     = some .odx := by decide +kernel
-example : (encodeMessage none ([⟨"a", none, none, none, true, 8⟩].map Obj.toParam) (.dict [("a", .atom (.int (-2)))]) none true).toOption
+example : errClass (encodeMessage none ([⟨"a", none, none, none, true, 8, .int32⟩].map Obj.toParam) (.dict [("a", .atom (.str [65]))]) none true)
+    = some .encode := by decide +kernel
+example : errClass (encodeMessage none ([⟨"a", none, none, none, true, 8, .int32⟩].map Obj.toParam) (.dict []) none true)
+    = some .encode := by decide +kernel
+example : errClass (encodeMessage none ([⟨"a", none, none, none, true, 8, .int32⟩].map Obj.toParam) (.dict [("a", .atom (.int 1)), ("zz", .none)]) none true)
+    = some .odx := by decide +kernel
+example : (encodeMessage none ([⟨"a", none, none, none, true, 8, .int32⟩].map Obj.toParam) (.dict [("a", .atom (.int (-2)))]) none true).toOption
+    = some ([254], 0) := by decide +kernel
+example : (encodeMessage none ([⟨"a", none, none, none, true, 8, .uint32⟩].map Obj.toParam) (.dict [("a", .atom (.int 254))]) none true).toOption
     = some ([254], 0) := by decide +kernel
 
 /-- the witnesses of the pinned-commit defect are now rejected -/
